@@ -107,7 +107,8 @@ class StructType(TdmsType):
         """
         array = byte_array.view()
         array.dtype = cls.nptype.newbyteorder(endianness)
-        return array
+        # Convert to native byte order so data has the same dtype however it is read
+        return array.astype(cls.nptype, copy=False)
 
 
 @tds_data_type(0, None)
@@ -314,7 +315,8 @@ class ComplexSingleFloat(TdmsType):
         """
         array = byte_array.view()
         array.dtype = cls.nptype.newbyteorder(endianness)
-        return array
+        # Convert to native byte order so data has the same dtype however it is read
+        return array.astype(cls.nptype, copy=False)
 
 
 @tds_data_type(0x10000d, np.complex128)
@@ -327,7 +329,8 @@ class ComplexDoubleFloat(TdmsType):
         """
         array = byte_array.view()
         array.dtype = cls.nptype.newbyteorder(endianness)
-        return array
+        # Convert to native byte order so data has the same dtype however it is read
+        return array.astype(cls.nptype, copy=False)
 
 
 @tds_data_type(0xFFFFFFFF, None)
